@@ -207,7 +207,8 @@ void DetailedPlacer::runSwapsOneRow(int row, int nbNeighbours) {
   std::vector<int> cells = placement_.rowCells(row);
   for (int i = 0; i < (int)cells.size(); ++i) {
     int b = std::max(0, i - nbNeighbours);
-    int e = std::min((int)cells.size(), i + nbNeighbours + 1);
+    int e = (int)std::min<long long>(cells.size(),
+                                     (long long)i + nbNeighbours + 1);
     std::vector<int> candidates(cells.begin() + b, cells.begin() + e);
     bestSwap(cells[i], candidates);
   }
@@ -219,7 +220,8 @@ void DetailedPlacer::runInsertsOneRow(int row, int nbNeighbours) {
   cells.insert(cells.begin(), -1);
   for (int i = 1; i < (int)cells.size(); ++i) {
     int b = std::max(0, i - nbNeighbours);
-    int e = std::min((int)cells.size(), i + nbNeighbours + 1);
+    int e = (int)std::min<long long>(cells.size(),
+                                     (long long)i + nbNeighbours + 1);
     std::vector<int> candidates(cells.begin() + b, cells.begin() + e);
     bestInsert(cells[i], row, candidates);
   }
@@ -232,7 +234,8 @@ void DetailedPlacer::runSwapsTwoRows(int r1, int r2, int nbNeighbours) {
   for (int i = 0; i < (int)cells1.size(); ++i) {
     int closest = closestIndex[i];
     int b = std::max(0, closest - nbNeighbours);
-    int e = std::min((int)cells2.size(), closest + nbNeighbours + 1);
+    int e = (int)std::min<long long>(cells2.size(),
+                                     (long long)closest + nbNeighbours + 1);
     std::vector<int> candidates(cells2.begin() + b, cells2.begin() + e);
     bestSwap(cells1[i], candidates);
   }
@@ -257,7 +260,8 @@ void DetailedPlacer::runInsertsTwoRows(int r1, int r2, int nbNeighbours) {
   for (int i = 0; i < (int)cells1.size(); ++i) {
     int closest = closestIndex[i];
     int b = std::max(0, closest - nbNeighbours);
-    int e = std::min((int)cells2.size(), closest + nbNeighbours + 1);
+    int e = (int)std::min<long long>(cells2.size(),
+                                     (long long)closest + nbNeighbours + 1);
     std::vector<int> candidates(cells2.begin() + b, cells2.begin() + e);
     bestInsert(cells1[i], r2, candidates);
   }
